@@ -82,7 +82,7 @@ pub fn run_spec(spec: &SeqSpec, ctx: &Ctx) -> Finish {
     let mut ev = Evidence::new(spec.prop, &ctx.tier, ctx.seed, "exploration", spec.rule);
     ev.assumptions = spec.assumptions.iter().map(|s| s.to_string()).collect();
     ev.assumptions.push(
-        "sequential histories only; allocators of at most 4 trees; the reference model is a per-frame ownership map written from the property statements".into(),
+        "sequential histories only; allocators of 1-4 trees (one generated case in sixteen: 5-24 trees; enumerated cases: 1-3 trees); the reference model is a per-frame ownership map written from the property statements".into(),
     );
     // thorough tier: the full per-frame / per-block scans run after EVERY step of every fourth
     // case (by case hash), not only after failing calls and at the end
